@@ -13,9 +13,15 @@
 (*  loop (Execute):                                                        *)
 (*    Exec          channel.Recv(recvCtx, handler); the first state's      *)
 (*                  transition goroutine is started                        *)
-(*    HandOff       case msg := <-recvChan: currentState.Receive(msg)      *)
-(*                  (the states admit a message of an operating peer into  *)
-(*                  the shared BaseAsyncState whatever its type is)        *)
+(*    HandOffBegin  case msg := <-recvChan: currentState.Receive(msg) is   *)
+(*                  entered (the states admit a message of an operating    *)
+(*                  peer into the shared BaseAsyncState whatever its type  *)
+(*                  is); the loop is busy, it is NOT in its select         *)
+(*    HandOffEnd    Receive returned, the loop is back in its select.      *)
+(*                  Anything can happen in between: the context can be     *)
+(*                  cancelled and the transition goroutine can observe it, *)
+(*                  so that several cases are ready when the loop selects  *)
+(*                  again                                                  *)
 (*    Transition    case err := <-onStateDone with err = nil (channel      *)
 (*                  closed): Next(); nil -> return (currentState, nil),    *)
 (*                  else the next state becomes current and its            *)
@@ -36,8 +42,14 @@
 (*    Cancel        the context given to NewAsyncMachine is cancelled or   *)
 (*                  times out                                              *)
 (*                                                                         *)
-(* Go's select picks at random among the ready cases, so HandOff,          *)
-(* Transition / InitFailed and ExitCancelled are simply all enabled.       *)
+(* Go's select picks at random among the ready cases, so HandOffBegin,     *)
+(* Transition / InitFailed and ExitCancelled are simply all enabled while  *)
+(* the loop selects.  In particular a done signal that was given BEFORE    *)
+(* the cancellation may still be taken after it (Transition has no         *)
+(* ~ctxDone guard); what can never happen is a transition out of a state   *)
+(* whose CanTransition was not reported true (init[cur] = "signalled" is   *)
+(* only set by TickCheck) -- e.g. because the goroutine's exit on           *)
+(* ctx.Done() were mistaken for a done signal.                             *)
 (***************************************************************************)
 EXTENDS Integers, Sequences, FiniteSets
 
@@ -52,6 +64,7 @@ CONSTANTS
 
 VARIABLES
     pc,         \* "idle" | "running" | "returned"
+    lp,         \* where the loop is while running: "select" | "receiving" (inside Receive)
     cur,        \* index of currentState
     init,       \* k -> "idle" | "running" | "ticking" | "failed" | "signalled" | "stopped"
     history,    \* type -> sequence of admitted messages (BaseAsyncState.messages)
@@ -64,7 +77,7 @@ VARIABLES
     executed,   \* sequence of states whose transition goroutine was started
     outcome     \* [kind, state]; kind = "running" until Execute returns
 
-vars == <<pc, cur, init, history, queue, ctxDone, registered, sent, nDup, nForeign,
+vars == <<pc, lp, cur, init, history, queue, ctxDone, registered, sent, nDup, nForeign,
           visible, executed, outcome>>
 
 States == 1..N
@@ -77,7 +90,7 @@ Senders(t) == { history[t][j].s : j \in 1..Len(history[t]) }
 CanTransition(k) == k \in Silent \/ Peers \subseteq Senders(k)
 
 Init ==
-    /\ pc = "idle" /\ cur = 1
+    /\ pc = "idle" /\ lp = "select" /\ cur = 1
     /\ init = [k \in States |-> "idle"]
     /\ history = Empty
     /\ queue = <<>>
@@ -98,87 +111,95 @@ Exec ==
     /\ pc' = "running"
     /\ registered' = ~ctxDone          \* recvCtx is derived from the machine's context
     /\ StartState(1)
-    /\ UNCHANGED <<cur, history, queue, ctxDone, sent, nDup, nForeign, outcome>>
+    /\ UNCHANGED <<cur, history, queue, ctxDone, sent, nDup, nForeign, outcome, lp>>
 
 Return(o) ==
     /\ pc' = "returned"
     /\ outcome' = o
     /\ registered' = FALSE             \* defer cancelRecvCtx()
 
-\* currentState.Receive: the states admit every message of an operating peer
-HandOff ==
-    /\ pc = "running"
+\* case msg := <-recvChan: currentState.Receive(msg) entered; the states admit
+\* every message of an operating peer
+HandOffBegin ==
+    /\ pc = "running" /\ lp = "select"
     /\ queue # <<>>
     /\ LET m == Head(queue) IN
        history' = IF m.s \in Peers THEN [history EXCEPT ![m.t] = Append(@, m)] ELSE history
     /\ queue' = Tail(queue)
+    /\ lp' = "receiving"
     /\ UNCHANGED <<pc, cur, init, ctxDone, registered, sent, nDup, nForeign, visible, executed, outcome>>
+
+\* Receive returned
+HandOffEnd ==
+    /\ lp = "receiving"
+    /\ lp' = "select"
+    /\ UNCHANGED <<pc, cur, init, history, queue, ctxDone, registered, sent, nDup, nForeign, visible, executed, outcome>>
 
 InitiateOk ==
     /\ init[cur] = "running"           \* only the current state can be initiating
     /\ init' = [init EXCEPT ![cur] = "ticking"]
-    /\ UNCHANGED <<pc, cur, history, queue, ctxDone, registered, sent, nDup, nForeign, visible, executed, outcome>>
+    /\ UNCHANGED <<pc, cur, history, queue, ctxDone, registered, sent, nDup, nForeign, visible, executed, outcome, lp>>
 
 InitiateErr ==
     /\ "initiate" \in Faults
     /\ init[cur] = "running"
     /\ init' = [init EXCEPT ![cur] = "failed"]
-    /\ UNCHANGED <<pc, cur, history, queue, ctxDone, registered, sent, nDup, nForeign, visible, executed, outcome>>
+    /\ UNCHANGED <<pc, cur, history, queue, ctxDone, registered, sent, nDup, nForeign, visible, executed, outcome, lp>>
 
 \* the ticker fired and CanTransition() returned true
 TickCheck ==
     /\ init[cur] = "ticking"
     /\ CanTransition(cur)
     /\ init' = [init EXCEPT ![cur] = "signalled"]
-    /\ UNCHANGED <<pc, cur, history, queue, ctxDone, registered, sent, nDup, nForeign, visible, executed, outcome>>
+    /\ UNCHANGED <<pc, cur, history, queue, ctxDone, registered, sent, nDup, nForeign, visible, executed, outcome, lp>>
 
 \* the goroutine saw ctx.Done() first
 TickerStop ==
     /\ init[cur] = "ticking"
     /\ ctxDone
     /\ init' = [init EXCEPT ![cur] = "stopped"]
-    /\ UNCHANGED <<pc, cur, history, queue, ctxDone, registered, sent, nDup, nForeign, visible, executed, outcome>>
+    /\ UNCHANGED <<pc, cur, history, queue, ctxDone, registered, sent, nDup, nForeign, visible, executed, outcome, lp>>
 
 Transition ==
-    /\ pc = "running"
+    /\ pc = "running" /\ lp = "select"
     /\ init[cur] = "signalled"
     /\ IF cur = N
           THEN /\ Return([kind |-> "final", state |-> cur])
                /\ UNCHANGED <<cur, init, visible, executed>>
           ELSE /\ cur' = cur + 1
                /\ StartState(cur + 1)
-               /\ UNCHANGED <<pc, registered, outcome>>
-    /\ UNCHANGED <<history, queue, ctxDone, sent, nDup, nForeign>>
+               /\ UNCHANGED <<pc, registered, outcome, lp>>
+    /\ UNCHANGED <<history, queue, ctxDone, sent, nDup, nForeign, lp>>
 
 NextFailed ==
     /\ "next" \in Faults
-    /\ pc = "running"
+    /\ pc = "running" /\ lp = "select"
     /\ init[cur] = "signalled"
     /\ Return([kind |-> "nextErr", state |-> cur])
-    /\ UNCHANGED <<cur, init, history, queue, ctxDone, sent, nDup, nForeign, visible, executed>>
+    /\ UNCHANGED <<cur, init, history, queue, ctxDone, sent, nDup, nForeign, visible, executed, lp>>
 
 InitFailed ==
-    /\ pc = "running"
+    /\ pc = "running" /\ lp = "select"
     /\ init[cur] = "failed"
     /\ Return([kind |-> "initErr", state |-> cur])
-    /\ UNCHANGED <<cur, init, history, queue, ctxDone, sent, nDup, nForeign, visible, executed>>
+    /\ UNCHANGED <<cur, init, history, queue, ctxDone, sent, nDup, nForeign, visible, executed, lp>>
 
 ExitCancelled ==
-    /\ pc = "running"
+    /\ pc = "running" /\ lp = "select"
     /\ ctxDone
     /\ Return([kind |-> "ctxErr", state |-> cur])
-    /\ UNCHANGED <<cur, init, history, queue, ctxDone, sent, nDup, nForeign, visible, executed>>
+    /\ UNCHANGED <<cur, init, history, queue, ctxDone, sent, nDup, nForeign, visible, executed, lp>>
 
 Cancel ==
     /\ MayCancel
     /\ ~ctxDone
     /\ ctxDone' = TRUE
     /\ registered' = FALSE
-    /\ UNCHANGED <<pc, cur, init, history, queue, sent, nDup, nForeign, visible, executed, outcome>>
+    /\ UNCHANGED <<pc, cur, init, history, queue, sent, nDup, nForeign, visible, executed, outcome, lp>>
 
 Push(m) ==
     /\ queue' = IF registered THEN Append(queue, m) ELSE queue
-    /\ UNCHANGED <<pc, cur, init, history, ctxDone, registered, visible, executed, outcome>>
+    /\ UNCHANGED <<pc, cur, init, history, ctxDone, registered, visible, executed, outcome, lp>>
 
 \* a peer's message of any type (for the current, an earlier or a later state).
 \* The channel retransmits a message until it has been delivered, so an
@@ -211,7 +232,7 @@ DoArriveDup     == \E t \in States \ Silent, s \in Peers : ArriveDup(t, s)
 DoArriveForeign == \E t \in States : ArriveForeign(t)
 
 Next ==
-    \/ Exec \/ HandOff \/ InitiateOk \/ InitiateErr \/ TickCheck \/ TickerStop
+    \/ Exec \/ HandOffBegin \/ HandOffEnd \/ InitiateOk \/ InitiateErr \/ TickCheck \/ TickerStop
     \/ Transition \/ NextFailed \/ InitFailed \/ ExitCancelled \/ Cancel
     \/ DoArriveNew \/ DoArriveDup \/ DoArriveForeign
 
@@ -221,7 +242,7 @@ Spec == Init /\ [][Next]_vars
 \* needed message is eventually sent
 FairSpec ==
     /\ Spec
-    /\ WF_vars(Exec) /\ WF_vars(HandOff) /\ WF_vars(InitiateOk) /\ WF_vars(TickCheck)
+    /\ WF_vars(Exec) /\ WF_vars(HandOffBegin) /\ WF_vars(HandOffEnd) /\ WF_vars(InitiateOk) /\ WF_vars(TickCheck)
     /\ WF_vars(Transition)
     /\ \A t \in States \ Silent, s \in Peers : WF_vars(ArriveNew(t, s))
 
@@ -234,6 +255,8 @@ InitStates == {"idle", "running", "ticking", "failed", "signalled", "stopped"}
 
 TypeOK ==
     /\ pc \in {"idle", "running", "returned"}
+    /\ lp \in {"select", "receiving"}
+    /\ lp = "receiving" => pc = "running"
     /\ cur \in States
     /\ \A k \in States : init[k] \in InitStates
     /\ ctxDone \in BOOLEAN /\ registered \in BOOLEAN
